@@ -142,7 +142,7 @@ def _step(ctx, cls):
     it, f, parts = sim_step(ctx, cls)
     out = []
     for p, sol in parts:
-        if len(sol) == 0 and any(e.kind == "for_iter" for e in p.events):
+        if len(sol) == 0 and any(e.kind == "for_iter" and not e.data.get("comprehension") for e in p.events):
             _unsolved_step(ctx, it, f, cls, p)
             continue
         if len(sol) != 1:
